@@ -6,7 +6,8 @@ echo "# seed sweep $(date -u +%FT%TZ)  repo=$(git -C /repo log --format=%h -1)  
 for d in /verif/seeded/*/; do
   n=$(basename $d); pid=${n%%-*}; [ -f $d/patch.diff ] || continue
   mkdir -p /tmp/seedtmp_$$; cp $d/patch.diff /tmp/seedtmp_$$/m1.diff; cp $d/demo.py /tmp/seedtmp_$$/m1_demo.py
-  res=$(timeout 1800 /verif/tools/seedcheck.sh /tmp/seedtmp_$$ 1 $pid 2>&1 | grep -E "^SEED|==" | tr '\n' ' ')
+  ids=$(python3 -c "import json,sys; m=json.load(open('$d/meta.json')); print(' '.join(m.get('caught_by_quick') or ['$pid']))")
+  res=$(timeout 1800 /verif/tools/seedcheck.sh /tmp/seedtmp_$$ 1 $ids 2>&1 | grep -E "^SEED|==" | tr '\n' ' ')
   echo "$n: $res" | sed 's/SEED seedtmp_[0-9]* m1: //' >> $out
   rm -rf /tmp/seedtmp_$$
 done
